@@ -38,7 +38,7 @@ ASSUMPTIONS = [
   'nothing is asserted about the partial effects of a call that raised (they legitimately differ between eager and traced execution); the twin is re-synchronised from the caller\'s objects afterwards and the NEXT call must conform',
   'pmap, shard_map, custom_vjp are not covered (broken on this jax even with the shim)',
 ]
-PROBES = ['T_jit', 'T_remat', 'T_cond', 'T_switch', 'T_while_loop', 'T_fori_loop', 'T_cached_partial', 'T_jit_cond', 'T_jit_fori', 'cache_hit_same_structure', 'structure_changed_between_calls', 'aliased_arguments', 'structural_edit_in_trace', 'new_object_created_in_trace', 'fault_in_trace', 'call_after_fault', 'cached_partial_rejects_structure_change', 'object_returned', 'detached_object_returned', 'returned_object_metadata_edit', 'returned_object_reattached']
+PROBES = ['T_cached_partial2', 'T_jit', 'T_remat', 'T_cond', 'T_switch', 'T_while_loop', 'T_fori_loop', 'T_cached_partial', 'T_jit_cond', 'T_jit_fori', 'cache_hit_same_structure', 'structure_changed_between_calls', 'aliased_arguments', 'structural_edit_in_trace', 'new_object_created_in_trace', 'fault_in_trace', 'call_after_fault', 'cached_partial_rejects_structure_change', 'object_returned', 'detached_object_returned', 'returned_object_metadata_edit', 'returned_object_reattached']
 
 CROSS_RUN_STATE = True
 
@@ -103,9 +103,9 @@ def generate(rs, tier):
   build.append(dict(op='var', obj=0, name='w', vtype='Param', shape=[2], fill=g.randrange(1, 5), meta={}))
   fns = []
   for _ in range(g.choice([1, 1, 2])):
-    T = g.choice(['jit', 'jit', 'remat', 'cond', 'switch', 'while_loop', 'fori_loop', 'cached_partial', 'jit_cond', 'jit_fori'])
-    structural = T in ('jit', 'remat', 'cached_partial')
-    arity = 1 if T in ('while_loop', 'fori_loop', 'cached_partial', 'jit_cond', 'jit_fori') else g.choice([1, 2, 2, 3])
+    T = g.choice(['jit', 'jit', 'remat', 'cond', 'switch', 'while_loop', 'fori_loop', 'cached_partial', 'cached_partial2', 'jit_cond', 'jit_fori'])
+    structural = T in ('jit', 'remat', 'cached_partial', 'cached_partial2')
+    arity = 1 if T in ('while_loop', 'fori_loop', 'cached_partial', 'jit_cond', 'jit_fori') else (2 if T == 'cached_partial2' else g.choice([1, 2, 2, 3]))
     nprog = {'cond': 2, 'switch': 3, 'jit_cond': 2}.get(T, 1)
     fns.append(dict(T=T, arity=arity, progs=[gen_program(g, arity, structural and g.random() < 0.7, allow_ret=T == 'jit') for _ in range(nprog)]))
   ops = []
@@ -140,7 +140,7 @@ def generate(rs, tier):
     # transform is not a user assignment
     for _ in range(g.choice([1, 2])):
       build.append(dict(op='setmeta', var=g.randrange(64), key='on_set_value', value='@SETHOOK'))
-  has_cp = any(f['T'] == 'cached_partial' for f in fns)
+  has_cp = any(f['T'].startswith('cached_partial') for f in fns)
   if has_cp and g.random() < 0.85:
     # cached_partial does not support raw array attributes (known finding cached-partial-array-attribute)
     build = [b for b in build if b['op'] != 'array']
@@ -153,7 +153,7 @@ SHRINK_LISTS = ['ops']
 
 def signature(plan, v):
   k = plan['knobs']
-  has_cp = any(f['T'] == 'cached_partial' for f in k['fns'])
+  has_cp = any(f['T'].startswith('cached_partial') for f in k['fns'])
   has_arr = any(b['op'] == 'array' for b in k['build']) or any(o['op'] == 'edit' and o['edit']['op'] == 'array' for o in plan['ops'])
   return dict(cached_partial_with_array_attr=bool(has_cp and has_arr))
 
@@ -294,6 +294,8 @@ def build_fn(fd, heap_kind):
     def eager(nodes, x, sel, trips):
       if T in ('jit', 'remat', 'cached_partial'):
         return interpret(progs[0], nodes, x)
+      if T == 'cached_partial2':
+        return interpret(progs[0], [nodes[0], nodes[1], nodes[0]], x)
       if T == 'cond':
         return interpret(progs[0] if sel % 2 == 0 else progs[1], nodes, x, value_only=True)
       if T == 'jit_cond':
@@ -354,6 +356,24 @@ def build_fn(fd, heap_kind):
       return cache[key][0](x)
 
     return cp
+  if T == 'cached_partial2':
+    # the documented two-object form (model, optimizer): both graphs cached, and the caller's first object handed in
+    # once more as an ordinary argument (it aliases the cached graph)
+    jf2 = nnx.jit(lambda a, b, alias, x: interpret(progs[0], [a, b, alias], x))
+    cache2 = {}
+
+    def cp2(nodes, x, sel, trips):
+      a, b = nodes[0], nodes[1]
+      oa, ob = W.real_objects(a), W.real_objects(b)
+      if a is b or set(oa) & set(ob) or isinstance(a, nnx.Variable) or isinstance(b, nnx.Variable):
+        return jf2(a, b, a, x)  # overlapping graphs are not what cached_partial is documented for: plain jit
+      key = (id(a), id(b), shape_key(a), shape_key(b), tuple(sorted(oa)), tuple(sorted(ob)))
+      if key not in cache2:
+        cache2[key] = (nnx.cached_partial(jf2, a, b), a, b)
+        CNT.cp2 = getattr(CNT, 'cp2', 0) + 1
+      return cache2[key][0](a, x)
+
+    return cp2
   if T == 'cond':
     arity = fd['arity']
 
@@ -677,14 +697,14 @@ class TwinHeaps:
     except ProgFault:
       raise
     except Exception as e:  # noqa: BLE001
-      if T == 'cached_partial' and (structural or created or self.last_struct.get(('cp', fi)) not in (None, struct_key)):
+      if T.startswith('cached_partial') and (structural or created or self.last_struct.get(('cp', fi)) not in (None, struct_key)):
         # structure changes must be rejected by cached_partial: acceptable outcome, resync and go on
         res.probe('cached_partial_rejects_structure_change')
         self.resync_from_B_failed()
         self.log.add(oi, 'call', T, 'rejected')
         return
       raise Violation('transform-raises', f'{where}: eager run succeeds but the transformed call raised {type(e).__name__}: {str(e)[:300]}')
-    if T == 'cached_partial':
+    if T.startswith('cached_partial'):
       self.last_struct.setdefault(('cp', fi), struct_key)
     boxT = None
     if isinstance(yT, tuple):
